@@ -13,7 +13,7 @@ func init() {
 		ID:    "C04",
 		Title: "Path parameters are bound to exactly the URL text they stand for",
 		Decided: "C04.a the binder used for a request is the PathProcessor of the very router that selected the route (comma-ok assertion on the same Container.router value), else the default one; it is given the selected route, the selected service and this request's URL path, and its result reaches Request.pathParameters unmodified - nothing else stores that field; " +
-			"C04.b each binder returns a map made during that call; C04.c the binder rewrites or slices a URL value only under the template guards the matcher verified, a literal affix it strips is verified by the matcher, and its subtracted slice bound is guarded; C04.d a route's tokens and custom-verb flag are derived from its full path (root + route path) at build time and stored nowhere else; C04.e the JSR311 binder applies the route expression to the remainder left by the service expression, as the JSR311 selection does. C04.f = C01.g.",
+			"C04.b each binder returns a map made during that call; C04.c the binder rewrites or slices a URL value only under the template guards the matcher verified, a literal affix it strips is verified by the matcher, and its subtracted slice bound is guarded; C04.d a route's tokens and custom-verb flag are derived from its full path (root + route path) at build time and stored nowhere else; C04.e the JSR311 binder applies the route expression to the remainder left by the service expression, as the JSR311 selection does. C04.f = C01.g. C04.g nothing writes into the token slice of the request path after tokenisation (element store, copy, truncating append, in-place sort), in the tokenising function or in a module function the slice is handed to.",
 		NotDecided: "index alignment of the token walk and the round-trip law (value-level); the regular expressions; untokenizePath's join.",
 		Rules: []Rule{
 			{ID: "C04.a", Template: "T-PROV", Required: true, Run: ruleC04a,
